@@ -1,14 +1,9 @@
 (* C17 - list-level facts: invariants of the specification `alru_step`, the ideal map
    (key -> most recently stored answer that was neither flushed nor evicted), recency ages. *)
 From Coq Require Import Sorting.Sorted.
-From DV Require Import Base.Prelude Model.CacheM Proofs.CacheDict.
+From DV Require Import Base.Prelude Model.CacheM Model.CacheSpecM Proofs.CacheDict.
 
 (* ------------------------------------------------------------------ monotone clock *)
-Definition nonneg (ds : list Z) : Prop := Forall (fun d => 0 <= d) ds.
-Definition mono_item (it : item) : Prop :=
-  match it with Call _ ds => nonneg ds | Adv d => 0 <= d end.
-Definition mono (its : list item) : Prop := Forall mono_item its.
-
 Lemma tick_spec : forall k t k', tick k = (t, k') -> nonneg (pend k) ->
   now k <= t /\ now k' = t /\ nonneg (pend k').
 Proof.
@@ -98,27 +93,6 @@ Proof.
 Qed.
 
 (* ------------------------------------------------------------------ the ideal map *)
-Definition imap := Z -> option ans.
-
-(* hb / ha : which keys the cache holds before / after the call.  A key that a put or a
-   set_max_size makes disappear (other than the key being put) was evicted. *)
-Definition ideal_upd (cl : call) (hb ha : Z -> bool) (m : imap) : imap :=
-  fun x =>
-    match cl with
-    | Put k v => if x =? k then Some v else if hb x && negb (ha x) then None else m x
-    | SetMax _ => if hb x && negb (ha x) then None else m x
-    | Flush (Some k) => if x =? k then None else m x
-    | Flush None => None
-    | _ => m x
-    end.
-
-(* what a lookup must return given the ideal map and the clock reading of the lookup *)
-Definition expected (m : imap) (key : Z) (t : Z) : ret :=
-  match m key with
-  | Some v => if a_exp v <=? t then RNone else RAns v
-  | None => RNone
-  end.
-
 Record J (a : alru) (t : Z) (m : imap) : Prop := mkJ {
   J_in : forall k e, afind (a_list a) k = Some e -> m k = Some (e_val e);
   J_out : forall k v, m k = Some v ->
@@ -244,26 +218,6 @@ Proof.
 Qed.
 
 (* ------------------------------------------------------------------ recency: who was used last *)
-Definition event := (call * ret)%type.
-
-(* a call uses key k if it stores k or successfully looks k up *)
-Definition uses (ev : event) (k : Z) : bool :=
-  match ev with
-  | (Put k' _, _) => k' =? k
-  | (Get k', RAns _) => k' =? k
-  | _ => false
-  end.
-
-(* history: most recent event first.  age h k = how many events ago k was last used *)
-Fixpoint age (h : list event) (k : Z) : option nat :=
-  match h with
-  | [] => None
-  | ev :: r => if uses ev k then Some 0%nat else option_map S (age r k)
-  end.
-
-Definition younger (h : list event) (k k' : Z) : Prop :=
-  exists n n', age h k = Some n /\ age h k' = Some n' /\ (n < n')%nat.
-
 Definition recency_ok (h : list event) (ks : list Z) : Prop :=
   StronglySorted (younger h) ks /\ Forall (fun k => age h k <> None) ks.
 
@@ -413,25 +367,6 @@ Proof.
 Qed.
 
 (* ------------------------------------------------------------------ counters as functions of the history *)
-(* (hits, misses) since the last reset_statistics: one per lookup *)
-Fixpoint stats_of (h : list event) : Z * Z :=
-  match h with
-  | [] => (0, 0)
-  | (ResetStats, _) :: _ => (0, 0)
-  | (Get _, RAns _) :: r => (fst (stats_of r) + 1, snd (stats_of r))
-  | (Get _, _) :: r => (fst (stats_of r), snd (stats_of r) + 1)
-  | _ :: r => stats_of r
-  end.
-
-(* successful lookups of k since k was last stored *)
-Fixpoint key_hits (h : list event) (k : Z) : Z :=
-  match h with
-  | [] => 0
-  | (Put k' _, _) :: r => if k' =? k then 0 else key_hits r k
-  | (Get k', RAns _) :: r => (if k' =? k then 1 else 0) + key_hits r k
-  | _ :: r => key_hits r k
-  end.
-
 Lemma astats_step : forall cl a k h,
   (a_hits a, a_miss a) = stats_of h ->
   (a_hits (snd (fst (alru_step cl a k))), a_miss (snd (fst (alru_step cl a k)))) =
@@ -510,13 +445,6 @@ Proof.
   - cbn. apply khits_unused; [reflexivity|exact HK].
 Qed.
 
-(* get_hits_for_key: the hits of the stored answer if it is still there and unexpired, else 0 *)
-Definition expected_hits (m : imap) (h : list event) (key : Z) (t : Z) : ret :=
-  match m key with
-  | Some v => if a_exp v <=? t then RInt 0 else RInt (key_hits h key)
-  | None => RInt 0
-  end.
-
 Lemma J_hitsfor : forall a key k m h, J a (now k) m -> khits_ok h (a_list a) -> nonneg (pend k) ->
   fst (fst (alru_step (HitsFor key) a k)) =
   expected_hits m h key (now (snd (alru_step (HitsFor key) a k))).
@@ -534,18 +462,6 @@ Proof.
 Qed.
 
 (* ------------------------------------------------------------------ how the key set can change *)
-(* a key leaves the cache only through flush, through a lookup of that key finding it expired,
-   or through eviction by put / set_max_size; it enters only through put *)
-Definition keyset_rule (cl : call) (hb ha : Z -> bool) (x : Z) : Prop :=
-  match cl with
-  | Get key => x <> key -> ha x = hb x
-  | Put key _ => (x = key -> ha x = true) /\ (x <> key -> hb x = false -> ha x = false)
-  | Flush (Some key) => ha x = if x =? key then false else hb x
-  | Flush None => ha x = false
-  | SetMax _ => hb x = false -> ha x = false
-  | HitsFor _ | Hits | Misses | Snapshot | ResetStats => ha x = hb x
-  end.
-
 Lemma ahas_false : forall a x, ahas a x = false <-> afind (a_list a) x = None.
 Proof.
   intros a x. unfold ahas. destruct (afind (a_list a) x); split; intros; congruence.
